@@ -59,14 +59,28 @@ func genSyscallRecNamed(rt *rapid.T, tk *tokens, name string) kenc.Rec {
 	if !ok || rapid.IntRange(0, 9).Draw(rt, "unknownsys") == 0 {
 		num = 9999
 	}
-	f := []kenc.F{kenc.P("arch", "c000003e"), kenc.P("syscall", strconv.Itoa(num)),
-		kenc.P("success", rapid.SampledFrom([]string{"yes", "no"}).Draw(rt, "success")), kenc.P("exit", tk.num())}
-	for i := 0; i < 4; i++ {
-		f = append(f, kenc.P("a"+strconv.Itoa(i), "f"+tk.num()))
+	// numbers: unique tokens most of the time (so that every value can be traced), but in a third of the records
+	// the small values real records carry — code that looks at what a number means is only reached by those
+	real := rapid.IntRange(0, 2).Draw(rt, "realnumbers") == 0
+	n := func(label string, choices ...string) string {
+		if real {
+			return rapid.SampledFrom(choices).Draw(rt, label)
+		}
+		return tk.num()
 	}
-	f = append(f, kenc.P("items", tk.num()), kenc.P("ppid", tk.num()), kenc.P("pid", tk.num()))
+	f := []kenc.F{kenc.P("arch", "c000003e"), kenc.P("syscall", strconv.Itoa(num)),
+		kenc.P("success", rapid.SampledFrom([]string{"yes", "no"}).Draw(rt, "success")), kenc.P("exit", n("exit", "0", "3", "-2", "-13", "-1", "4096", "-4095"))}
+	for i := 0; i < 4; i++ {
+		if real {
+			f = append(f, kenc.P("a"+strconv.Itoa(i), rapid.SampledFrom([]string{"0", "1", "7ffd1a2b3c4d", "ffffff9c", "80000"}).Draw(rt, "arg")))
+		} else {
+			f = append(f, kenc.P("a"+strconv.Itoa(i), "f"+tk.num()))
+		}
+	}
+	// items: a token, or (set by the caller once the group is known) the number of PATH records, or another small number
+	f = append(f, kenc.P("items", tk.num()), kenc.P("ppid", n("ppid", "1", "0", "812")), kenc.P("pid", n("pid", "813", "1", "4194304")))
 	for _, k := range []string{"auid", "uid", "gid", "euid", "suid", "fsuid", "egid", "sgid", "fsgid"} {
-		f = append(f, kenc.P(k, tk.num()))
+		f = append(f, kenc.P(k, n(k, "0", "1000", "4294967295", "65534")))
 	}
 	f = append(f, kenc.P("tty", tk.s("pts")), kenc.P("ses", tk.num()), kenc.U("comm", tk.s("comm")))
 	switch rapid.IntRange(0, 5).Draw(rt, "exekind") {
@@ -91,6 +105,14 @@ func genSyscallRecNamed(rt *rapid.T, tk *tokens, name string) kenc.Rec {
 		f = append(f, kenc.F{K: "key", V: []byte(tk.s("ka") + "\x01" + tk.s("kb")), Enc: kenc.Untrusted})
 	}
 	return kenc.Rec{Type: recgen.SYSCALL, Fields: f}
+}
+
+func setField(r *kenc.Rec, key, val string) {
+	for i := range r.Fields {
+		if r.Fields[i].K == key {
+			r.Fields[i] = kenc.P(key, val)
+		}
+	}
 }
 
 func genPathRec(rt *rapid.T, tk *tokens, item int) kenc.Rec {
@@ -320,6 +342,12 @@ func genC09(rt *rapid.T) C09Case {
 		}
 		for i, n := 0, npaths; i < n; i++ {
 			others = append(others, genPathRec(rt, tk, i))
+		}
+		switch rapid.IntRange(0, 3).Draw(rt, "itemskind") {
+		case 0, 1: // as the kernel writes it: the number of PATH records
+			setField(&sys, "items", strconv.Itoa(npaths))
+		case 2: // any other small number
+			setField(&sys, "items", strconv.Itoa(rapid.IntRange(0, 6).Draw(rt, "items")))
 		}
 		if len(others) > 1 && rapid.Bool().Draw(rt, "shuffle") {
 			others = rapid.Permutation(others).Draw(rt, "perm")
